@@ -1,4 +1,5 @@
 import Jp.Lemmas.Text
+import Jp.Lemmas.Utf8
 /-
   C16 — Array-index tokens follow the RFC 6901 grammar and bound checks are exact.
   Model: `Index.fromStr` (order of tests of `src/index.rs`), `forLen*`, `display`, `invalidCharAt`.
@@ -9,7 +10,7 @@ open Jp Jp.Spec
 -- OBLIGATIONS
 -- fromStr_eq_spec fromStr_ok_iff fromStr_no_panic display_fromStr fromStr_display parseNat_decimal
 -- leading_zeros_truthful invalid_character_truthful invalid_integer_truthful
--- forLen_exact forLenIncl_exact forLenUnchecked_exact toIndex_eq isNext_iff
+-- forLen_exact forLenIncl_exact forLenUnchecked_exact toIndex_eq isNext_iff char_index_is_byte_index
 
 /-! ### helper lemmas -/
 
@@ -312,6 +313,38 @@ theorem invalid_character_truthful (s src : Bytes) (o : Nat)
         · simp at h
         · split at h <;> simp at h
 
+/-- the offset Rust reports is a *char* index (`s.chars().position(..)`), the model's a *byte* index:
+    on any well-formed UTF-8 input they coincide, and `source.chars().nth(offset)` exists (the
+    `.expect` in `InvalidCharacterError::char()` cannot panic) and is not an ASCII digit -/
+theorem char_index_is_byte_index (s src : Bytes) (o : Nat) (cs : List Bytes)
+    (hutf : Jp.Spec.Utf8.chars s = some cs)
+    (h : Index.fromStr s = .err (.invalidCharacter src o)) :
+    Jp.Spec.Utf8.charPosition (fun c => !Jp.Spec.Utf8.isAsciiDigitChar c) cs = some o ∧
+    ∃ c, cs[o]? = some c ∧ Jp.Spec.Utf8.isAsciiDigitChar c = false := by
+  have hp : position (fun b => !isDigit b) s = some o := by
+    unfold Index.fromStr at h
+    split at h
+    · simp at h
+    · split at h
+      · simp at h
+      · split at h
+        · rename_i o' hp
+          simp at h
+          rw [hp, h.2]
+        · split at h
+          · simp at h
+          · rename_i e he
+            simp at h
+            subst h
+            unfold parseUsize at he
+            split at he
+            · simp at he
+            · split at he <;> simp at he
+          · simp at h
+  refine ⟨by rw [Jp.Spec.Utf8.charPosition_eq_bytePosition s cs hutf, hp], ?_⟩
+  obtain ⟨c, hc1, hc2, _⟩ := Jp.Spec.Utf8.nth_char_exists s cs o hutf hp
+  exact ⟨c, hc1, hc2⟩
+
 /-- invalid-integer only for empty or overflowing digit strings -/
 theorem invalid_integer_truthful (s : Bytes) :
     (Index.fromStr s = .err .invalidIntegerEmpty → s = []) ∧
@@ -368,5 +401,8 @@ example : Index.fromStr [48, 49] = .err .leadingZeros := by decide
 example : Index.fromStr [43, 49] = .err (.invalidCharacter [43, 49] 0) := by decide
 example : Index.fromStr [49, 50] = .ok (.num 12) := by decide
 example : validIndexStr [49, 50] = true := by decide
+-- "1٣2": Rust reports char offset 1, the model byte offset 1; the char there is the 2-byte `٣`
+example : Index.fromStr [49, 217, 163, 50] = .err (.invalidCharacter [49, 217, 163, 50] 1) := by decide
+example : Jp.Spec.Utf8.chars [49, 217, 163, 50] = some [[49], [217, 163], [50]] := by decide
 
 end Jp.C16
